@@ -913,6 +913,25 @@ func deepSet(m map[string]any, keys []string, value any) {
 	m[keys[len(keys)-1]] = value
 }
 
+// deepConflict tells whether setting keys in m would go through, or replace, an entry of the other shape (value vs. object).
+func deepConflict(m map[string]any, keys []string) bool {
+	for i, key := range keys {
+		v, ok := m[key]
+		if !ok {
+			return false
+		}
+		next, isMap := v.(map[string]any)
+		if i == len(keys)-1 {
+			return isMap
+		}
+		if !isMap {
+			return true
+		}
+		m = next
+	}
+	return false
+}
+
 func findNestedSchema(parentSchema *openapi3.SchemaRef, keys []string) (*openapi3.SchemaRef, error) {
 	currentSchema := parentSchema
 	for _, key := range keys {
@@ -943,6 +962,10 @@ func makeObject(props map[string]string, schema *openapi3.SchemaRef) (map[string
 			// don't support implicit array indexes anymore
 			p := pathFromKeys(keys)
 			return nil, &ParseError{path: p, Kind: KindInvalidFormat, Reason: "array items must be set with indexes"}
+		}
+		if conflict := deepConflict(mobj, keys); conflict {
+			// e.g. p[a]=1&p[a][b]=2: the same key is used both as a value and as an object
+			return nil, &ParseError{path: pathFromKeys(keys), Kind: KindInvalidFormat, Reason: "a key is used both as a value and as an object"}
 		}
 		deepSet(mobj, keys, value)
 	}
